@@ -16,6 +16,7 @@ def dispatch (line : String) : String :=
     | "dist" :: rest => distCmd rest
     | "perm" :: rest => permCmd rest
     | "ehist" :: rest => ehistCmd rest
+    | "mhist" :: rest => mhistCmd rest
     | "names" :: rest => namesCmd rest
     | "color" :: rest => colorCmd rest
     | "tex" :: rest => texCmd rest
